@@ -6,6 +6,7 @@
 package lockstep
 
 import (
+	"fmt"
 	"io/ioutil"
 	"os"
 	"reflect"
@@ -145,6 +146,9 @@ func (p *Pair) Exec(txs []pb.Transaction, descs []map[string]interface{}, timest
 		}
 		descs[i]["status"] = rc.Status.String()
 		descs[i]["ret"] = RetClass(rc)
+		if os.Getenv("VERIF_DEBUG") != "" && rc.Status != pb.Receipt_SUCCESS {
+			fmt.Fprintf(os.Stderr, "FAILED %v %v: %.200s\n", descs[i]["k"], descs[i]["m"], string(rc.Ret))
+		}
 		descs[i]["pos"] = i
 		if rc.Status == pb.Receipt_SUCCESS {
 			keep = append(keep, txs[i])
